@@ -48,3 +48,16 @@ MUTANTS += [
        "            dy = abs(new_y - y)\n            if new_y <= y:\n                cxnSp.cy = cy + dy\n            elif dy <= cy:\n                cxnSp.y = new_y\n                cxnSp.cy = cy - dy\n            else:\n                cxnSp.flipV = False")],
      "R17.4 Connector.end_y"),
 ]
+
+GSF = "src/pptx/oxml/shapes/groupshape.py"
+MUTANTS += [
+    ("child-extents-width-is-right-edge", "group width is the right-most edge, not the distance from the left edge",
+     [(GSF, "        cx = max_x - min_x\n", "        cx = max_x\n")],
+     "R17.2 CT_GroupShape._child_extents"),
+    ("child-extents-bottom-from-y-only", "the bottom edge ignores member heights",
+     [(GSF, "        max_y = max([(xSp.y + xSp.cy) for xSp in child_shape_elms])", "        max_y = max([xSp.y for xSp in child_shape_elms])")],
+     "R17.2 CT_GroupShape._child_extents"),
+    ("child-extents-swapped-components", "recalculate_extents takes the size for the position",
+     [(GSF, "        x, y, cx, cy = self._child_extents\n", "        cx, cy, x, y = self._child_extents\n")],
+     "R17.2 CT_GroupShape.recalculate_extents"),
+]
